@@ -41,7 +41,7 @@ def alias_siblings(fx, res, rule):
                 prim = {"short_flag_aliases_to": "self.short_flag", "long_flag_aliases_to": "self.long_flag"}.get(fn_)
                 isa = [c for c in b.calls_to(r"Option::is_some_and$") if prim and expr(b, c.args[0]) == prim and ("T:" + expr(b, c.dest)) in guard_strs(b, d[0])]
                 if rv["k"] == "use" and op_int(rv["op"]) == 1 and isa and all(
-                        re.fullmatch(r"(eq|Eq)\((\w+,arg1\.0|arg1\.0,\w+)\)", strip_transparent(expr(cb, 0))) for c in isa for cb in closure_bodies(fx, c)[-1:]):
+                        re.fullmatch(r"(eq|Eq)\((\w+,arg1\.0|arg1\.0,\w+)\)", strip_transparent(expr(cb, 0))) for c in isa for cb in own_closures(fx, c)):
                     continue
                 bad.append("bb%d: %s under %s" % (d[0], rv.get("k"), [g[:50] for g in guard_strs(b, d[0])]))
             else:
@@ -81,8 +81,15 @@ def inference_candidates(fx, res, rule):
                 continue
             if isinstance(rv, dict) and rv["k"] == "agg" and rv.get("variant") == "Some" and re.fullmatch(exact_rx, expr(b, rv["ops"][0])):
                 continue
+            if isinstance(rv, dict) and rv["k"] == "use":
+                fc_ = [c for c in b.calls_to(r"Option(<[^>]*>)?::filter$") if expr(b, c.dest) == expr(b, rv["op"]) and expr(b, c.args[0]) in ("next(%s)" % it for it in its)]
+                if fc_ and all(cb.calls_to(r"Option(<[^>]*>)?::is_none$") and cb.calls_to(r"Iterator>?::next$") for c in fc_ for cb in own_closures(fx, c)):
+                    continue    # iter.next().filter(|_| iter.next().is_none()): the unique inferred candidate
+            if isinstance(rv, Call) and rv.is_(r"Option(<[^>]*>)?::filter$") and expr(b, rv.args[0]) in ("next(%s)" % it for it in its) \
+                    and all(cb.calls_to(r"Option(<[^>]*>)?::is_none$") and cb.calls_to(r"Iterator>?::next$") for cb in own_closures(fx, rv)) and closure_bodies(fx, rv):
+                continue        # iter.next().filter(|_| iter.next().is_none()): the unique inferred candidate
             if isinstance(rv, Call) and rv.is_(r"Option(<[^>]*>)?::map$") and fn_ == "possible_subcommand" and re.fullmatch(r"find_subcommand\(self\.cmd,.*\)", expr(b, rv.args[0])) \
-                    and all(re.fullmatch(r"get_name\(\w+\)", expr(cb, 0)) for cb in closure_bodies(fx, rv)[-1:]):
+                    and all(re.fullmatch(r"get_name\(\w+\)", expr(cb, 0)) for cb in own_closures(fx, rv)):
                 continue        # find_subcommand(arg).map(|sc| sc.get_name()): the same exact-name answer
             what = expr(b, rv["op"]) if isinstance(rv, dict) and rv["k"] == "use" else (expr(b, rv["ops"][0]) if isinstance(rv, dict) and rv.get("ops") else str(rv))
             res.violation(rule, "lookup-answers|" + fn_, "%s bb%d" % (b.where(), d[0]), "%s can also answer %s: a token is taken for a subcommand although it is neither its exact name/alias nor a unique prefix (another spelling of an existing name, a value of a positional ...)" % (fn_, what[:120]))
@@ -109,7 +116,7 @@ def run(ctx):
     ak = fx.body("clap_builder::mkeymap::append_keys")
     for fld in ("index", "short", "long", "short_aliases", "aliases"):
         res.check(reads_field(ak, fld), "R8.2", "append_keys-reads|" + fld, ak.where(), "append_keys registers Arg::%s" % fld, "append_keys no longer registers Arg::%s as keys" % fld)
-    pushes = ak.calls_to(r"Vec::push$")
+    pushes = ak.calls_to(r"Vec::push$") + [c for c in ak.calls_to(r"Extend(<[^>]*>)?>?::extend$") if re.search(r"keys\)?$", expr(ak, c.args[0]))]      # keys.extend(aliases.iter().map(..)) counts
     res.check(len(pushes) >= 5, "R8.2", "append_keys-pushes", ak.where(), "%d key pushes (position, short, long, short aliases, aliases)" % len(pushes), "append_keys pushes only %d keys" % len(pushes))
     kinds = set()
     for i, j, s in ak.stmts():
